@@ -202,20 +202,24 @@ def step(h, tier):
 # ---------------------------------------------------------------------------------------------------------------------
 FAILS = ['missing', 'missing-after-wrong-shape', 'wrong-dtype', 'wrong-dtype-second', '3d', 'bad-window', 'small-chunk',
          'dir-target', 'bad-data-type', 'empty-dict', 'small-chunk-other-shape']
+# successful earlier writes (they must leave no trace in the next write either: e.g. a remembered data dict)
+OKS = ['ok-dict', 'ok-dict-extra-key', 'ok-struct', 'ok-window']
+FINALS = ['dict', 'struct', 'h5', 'dict-missing-key']
 
 
 def shards(tier):
-    return [{'fw': f} for f in FAILS]
+    return [{'fw': f} for f in FAILS + OKS]
 
 
 def cases(shard, tier):
-    yield {'fw': [shard['fw']]}
-    for g in FAILS:
-        yield {'fw': [shard['fw'], g]}
-    if tier != 'quick':
-        for g in FAILS:
-            for k in FAILS:
-                yield {'fw': [shard['fw'], g, k]}
+    for final in FINALS:
+        yield {'fw': [shard['fw']], 'final': final}
+        for g in FAILS + OKS:
+            yield {'fw': [shard['fw'], g], 'final': final}
+        if tier != 'quick':
+            for g in FAILS + OKS:
+                for k in FAILS + OKS:
+                    yield {'fw': [shard['fw'], g, k], 'final': final}
 
 
 def _fw_spec():
@@ -254,7 +258,40 @@ def _failing_kwargs(kind, path):
         kw['data'] = 5
     elif kind == 'empty-dict':
         kw['data'] = {}
+    elif kind == 'ok-dict-extra-key':
+        kw['data'] = dict(g, EXTRA=np.arange(3, dtype=np.float32))
+    elif kind == 'ok-struct':
+        kw['data'] = _struct(g)
+    elif kind == 'ok-window':
+        kw['from_idx'], kw['to_idx'] = 1, 2
     return kw
+
+
+def _struct(g):
+    import numpy as np
+    out = np.zeros(3, dtype=[('A', g['A'].dtype), ('B', g['B'].dtype, (2,))])
+    out['A'], out['B'] = g['A'], g['B']
+    return out
+
+
+def _final_kwargs(final):
+    g = _good()
+    if final == 'dict':
+        return {'data': g}, True
+    if final == 'struct':
+        return {'data': _struct(g)}, True
+    if final == 'h5':
+        import h5py
+        p = os.path.join(scratch_dir(), 'c20src.h5')
+        if os.path.exists(p):
+            os.remove(p)
+        with h5py.File(p, 'w') as f:
+            f.create_dataset('/A', data=g['A'])
+            f.create_dataset('/B', data=g['B'])
+        return {'data': p}, True
+    if final == 'dict-missing-key':
+        return {'data': {'A': g['A']}}, False        # must raise: data set B is nowhere to be found
+    raise ValueError(final)
 
 
 def run_case(case):
@@ -264,19 +301,23 @@ def run_case(case):
     path = os.path.join(scratch_dir(), 'c20fw.dlis')
     dpath = os.path.join(scratch_dir(), 'c20dir.dlis')
 
+    final = case.get('final', 'dict')
+
     def good_write(b):
         if os.path.exists(path):
             os.remove(path)
+        fkw, _ = _final_kwargs(final)
         try:
-            b.df.write(path, output_chunk_size=2 ** 16, data=_good())
+            b.df.write(path, output_chunk_size=2 ** 16, **fkw)
         except Exception as e:  # noqa
             return f"raised:{type(e).__name__}: {e}"
         return open(path, 'rb').read()
 
     fresh = S.build(_fw_spec())
     want = good_write(fresh)
-    if isinstance(want, str):
-        return Outcome('harness', [("C20:harness:fresh-good-write-failed", want)], False)
+    final_ok = _final_kwargs(final)[1]
+    if isinstance(want, str) == final_ok:
+        return Outcome('harness', [("C20:harness:fresh-final-write-unexpected", str(want)[:200])], False)
     b = S.build(_fw_spec())
     for kind in case['fw']:
         kw = _failing_kwargs(kind, path)
@@ -286,13 +327,21 @@ def run_case(case):
             target = dpath
         try:
             b.df.write(target, **kw)
-            viol.append((f"C20:failing-write-accepted:{kind}", f"a write designed to fail returned normally | {case}"))
-        except Exception:  # noqa
-            pass
+            if not kind.startswith('ok-'):
+                viol.append((f"C20:failing-write-accepted:{kind}", f"a write designed to fail returned normally | {case}"))
+        except Exception as e:  # noqa
+            if kind.startswith('ok-'):
+                viol.append((f"C20:valid-write-raised:{kind}", f"{type(e).__name__}: {e} | {case}"))
         finally:
             if os.path.isdir(dpath):
                 os.rmdir(dpath)
     got = good_write(b)
+    if not final_ok:
+        # the final write must fail here exactly as it does on a fresh specification
+        if not isinstance(got, str):
+            viol.append((f"C20:earlier-write-leaks-data:{final}", f"after {case['fw']} a write that a fresh specification "
+                                                                  f"rejects ({str(want)[:80]}) succeeded | {case}"))
+        return Outcome('final-rejected' if isinstance(got, str) else 'final-accepted', viol, True, digest=str(got)[:30])
     if isinstance(got, str):
         viol.append((f"C20:repaired-write-fails:{case['fw'][-1] if len(case['fw']) == 1 else '+'.join(case['fw'])}",
                      f"{got} | {case}"))
